@@ -266,6 +266,36 @@ def setter_motion_case(run, rng, R, t):
     return ok
 
 
+def right_matrix_case(run, rng, l):
+    """rotational invariant of a pure shell assembled by the caller from Cartesian values with generate_transformation(..., "right"):
+    sum_m phi_lm(r)^2 depends on |r - A| only (it is (2l+1)/(4 pi) R(r)^2), so it is the same at all points of a sphere"""
+    from gbasis.evals.eval import evaluate_basis
+    from gbasis.spherical import generate_transformation
+    s = rand_shell(rng, l, [], nprim=2, nseg=1, sph=False, exp_lo=0.3, exp_hi=3.0)
+    sh = s.make()
+    Tr = generate_transformation(l, sh.angmom_components_cart, sh.angmom_components_sph, "right")
+    Tl = generate_transformation(l, sh.angmom_components_cart, sh.angmom_components_sph, "left")
+    run.case(("right-matrix", l))
+    run.count("pure shell assembled with the 'right' matrix")
+    ok = True
+    if Tr.shape != Tl.T.shape or np.abs(Tr - Tl.T).max() > 1e-13 * max(1.0, float(np.abs(Tl).max())):
+        run.violation(f"generate_transformation(l={l}, apply_from='right') is not the transpose of the 'left' form",
+                      {"case": "right-matrix", "l": l, "signature": {"kind": "right-matrix"}})
+        return False
+    pts = []
+    for _ in range(6):
+        u = np.array([rng.gauss(0, 1) for _ in range(3)])
+        pts.append(np.array(s.center) + 0.9 * u / np.linalg.norm(u))
+    vals = evaluate_basis([sh], np.array(pts)).T @ Tr          # (points, 2l+1)
+    inv = (vals ** 2).sum(axis=1)
+    if np.abs(inv - inv[0]).max() > 1e-10 * float(np.abs(inv).max()):
+        run.violation(f"sum_m phi_lm^2 of a pure l={l} shell assembled with the 'right' matrix is not constant on a sphere around the centre "
+                      f"(relative spread {np.abs(inv - inv[0]).max() / np.abs(inv).max():.2e})",
+                      {"case": "right-matrix", "l": l, "signature": {"kind": "right-matrix"}})
+        ok = False
+    return ok
+
+
 def angmom_shift_case(run, specs, d):
     b1 = make_basis(specs)
     b2 = make_basis([s.copy(center=list(np.array(s.center) + d)) for s in specs])
@@ -306,6 +336,8 @@ def check(run):
         tensor_case(run, specs, env, rng.choice(sp), np.zeros(3), "signed-permutation")
         angmom_shift_case(run, specs, np.array([0.5, -1.25, 2.0]))
         setter_motion_case(run, rng, cayley(rng), np.array([core.snap(rng.uniform(-2, 2), 8) for _ in range(3)]))
+    for l in range(5 if quick else 8):
+        right_matrix_case(run, rng, l)
     # repulsion integrals: angular momenta fixed so that every axis branch of the electron-transfer and horizontal recursions is
     # exercised (p and d shells on both electrons), centres in general position
     for k, ls in enumerate([(1, 1)] if quick else [(1, 1), (1, 2), (2, 1), (0, 2), (2, 2)]):
@@ -319,7 +351,9 @@ def check(run):
 def replay(run, rep):
     n0 = len(run.violations)
     specs = specs_from(rep)
-    if rep["case"] == "setter-motion":
+    if rep["case"] == "right-matrix":
+        right_matrix_case(run, run.rng, rep["l"])
+    elif rep["case"] == "setter-motion":
         setter_motion_case(run, run.rng, np.array(rep["R"]), np.array(rep["t"]))
     elif rep["case"] == "angmom_shift":
         angmom_shift_case(run, specs, np.array(rep["d"]))
